@@ -1,12 +1,66 @@
-import QbiceVerif.Model.EngineCore
+/-
+C01 — incremental answers equal a from-scratch evaluation, for the core engine model
+(`Model/EngineCore.lean`).  `cur p s k` is the from-scratch value of `k` on the inputs committed
+in `s` (`evalSpec`, which never looks at cached nodes); `Inv` is the engine invariant
+(`Lemmas/EngineCore.lean`); it holds initially and is preserved by every operation.
+-/
+import QbiceVerif.Lemmas.EngineCoreEx
 namespace Qbice.Core
 
-/-- placeholder obligation while the soundness proof is being built: the specification is a
-    function of the committed inputs only (extensionality in the inputs it reads). -/
-theorem evalProg_congr (r₁ r₂ : Key → Option Val) (h : ∀ k, r₁ k = r₂ k) (p : Prog) :
-    evalProg r₁ p = evalProg r₂ p := by
-  induction p with
-  | ret v => rfl
-  | ask d cont ih => simp [evalProg, h d, ih]
+/-- "every value returned by a query equals the value a from-scratch evaluation on the currently
+    committed inputs would produce": a successful query in a state satisfying the invariant returns
+    `cur p s k`, keeps the invariant, and changes neither the committed inputs nor the epoch. -/
+theorem core_query_sound {p : Program} (wf : WF p) {s : St} (inv : Inv p s) {k fuel : Nat}
+    (hk : k < fuel) {v : Val} {s' : St} (h : query p fuel k s = .ok (v, s')) :
+    cur p s k = some v ∧ Inv p s' ∧ inputsOf s' = inputsOf s ∧ s'.epoch = s.epoch := by
+  obtain ⟨i, f, _, c, _⟩ := (query_spec wf fuel k hk s inv).ok h
+  exact ⟨c, i, f.inputs, f.epoch⟩
+
+example : WF exP ∧ Inv exP exS ∧ 3 < fuelFor exP ∧
+    (query exP (fuelFor exP) 3 exS).toOption.map (·.1) = some 0 :=
+  ⟨exP_wf, exS_inv, by decide, by decide⟩
+
+/-- "an input session (epoch bump, writes, commit with dirty propagation) re-establishes the engine
+    invariant; each write reports Fresh / Updated / Unchanged exactly by presence / equality of the
+    previously committed value, and the committed inputs afterwards are the previous ones overridden
+    by the writes in order". -/
+theorem core_session_inv {p : Program} {s : St} (inv : Inv p s) {sets : List (Key × Val)}
+    {rs : List SetRes} {s' : St} (h : session p sets s = .ok (rs, s')) :
+    Inv p s' ∧ rs = writeResults sets (inputsOf s) ∧
+      inputsOf s' = applyWrites sets (inputsOf s) ∧ s'.epoch = s.epoch + 1 := by
+  obtain ⟨a, b, c, d, _⟩ := session_spec inv h
+  exact ⟨a, b, c, d⟩
+
+example : Inv exP exT ∧
+    (session exP [(0, 0), (1, 5)] exT).toOption.map (·.1) = some [.updated, .unchanged] :=
+  ⟨exT_inv, by decide⟩
+
+/-- "for every history of sessions and rounds run from the initial state, every value returned by
+    every round equals the from-scratch value on the inputs committed at that point (and every write
+    result is the reference one)": `OutOK` compares the outputs with `evalSpec` / `writeResults` on
+    the reference input map, starting from no inputs; the final state satisfies the invariant. -/
+theorem core_history_sound {p : Program} (wf : WF p) {ops : List Op} {outs : List OpOut} {s' : St}
+    (h : runOps p ops {} = .ok (outs, s')) : OutOK p ops outs (fun _ => none) ∧ Inv p s' := by
+  have := (runOps_spec wf ops {} (Inv.init p)).ok h
+  exact this
+
+/-- termination is a conclusion, not an assumption: with fuel above the key (`fuelFor p` for every
+    key of the program) a query in a state satisfying the invariant never runs out of fuel. -/
+theorem core_query_no_out_of_fuel {p : Program} (wf : WF p) {s : St} (inv : Inv p s) {k fuel : Nat}
+    (hk : k < fuel) : query p fuel k s ≠ .error .outOfFuel :=
+  (query_spec wf fuel k hk s inv).not_oof
+
+/-- … and no history run with `fuelFor p` ever runs out of fuel. -/
+theorem core_history_no_out_of_fuel {p : Program} (wf : WF p) (ops : List Op) :
+    runOps p ops {} ≠ .error .outOfFuel :=
+  (runOps_spec wf ops {} (Inv.init p)).not_oof
+
+/-- non-vacuity: a 4-key program (two inputs, a node with a conditional read, a node above it) is
+    `WF`, and a 6-operation history runs to completion with the expected outputs: the conditional
+    read disappears after input 0 changes (round 2) and reappears (round 3). -/
+example : WF exP ∧ (runOps exP exOps {}).toOption.map (·.1) =
+    some [.sess [.fresh, .fresh], .round [30, 15], .sess [.updated, .unchanged], .round [0],
+      .sess [.updated], .round [30, 30]] :=
+  ⟨exP_wf, by decide⟩
 
 end Qbice.Core
